@@ -1789,6 +1789,7 @@ fn main() {
     let stop_after = kverif::arg_u64(&a, "stop-after", 5);
     let casefile = a.get("casefile").cloned();
     let bigcaps = kverif::arg_u64(&a, "bigcaps", 0) != 0;
+    let wide_arg = !a.contains_key("replay") && kverif::arg_u64(&a, "wide", 0) != 0;
     let bigfill = kverif::arg_str(&a, "bigfill", "").to_string();
     let classes_arg = kverif::arg_str(&a, "classes", "P8,PB,L40,LS,S4,S1,Z0,ZA,L16,N8,N40,N4,A32").to_string();
     let classes: Vec<&str> = classes_arg.split(',').collect();
@@ -1934,7 +1935,7 @@ fn main() {
         // very large capacities: the buffer is allocated up front, so the size is limited per payload class inside go()
         let cap = if bigcaps && rng.chance(1, 12) { Some(((1usize << (8 + rng.below(54))) as i128 + *rng.pick(&[-1i128, 0, 1, 5])) as usize) } else { cap };
         let actor = rng.chance(1, 2);
-        let is_wide = bigcaps && rng.chance(1, 8);
+        let is_wide = (bigcaps || wide_arg) && rng.chance(1, 8);
         WIDE.store(is_wide, std::sync::atomic::Ordering::Relaxed);
         let len = if is_wide { 60 + rng.below(240) as usize } else { 10 + rng.below((maxlen.max(11) - 10) as u64) as usize };
         // choices are drawn large and reduced modulo the radix at replay time: pre-run to fix them
@@ -1976,6 +1977,58 @@ fn main() {
                 let what = format!("TrySend/fill on bounded({}): {}", cap, e);
                 report("plain", Some(cap), false, &[], &(what, vec![format!("fill bounded({}) to the brim with try_send, probe, drain", cap)]), &mut out);
                 break;
+            }
+        }
+        // an unbounded channel grows through every doubling of its buffer and stays FIFO
+        {
+            let n: usize = if bigfill == "t" { 1 << 24 } else { (1 << 22) + 3 };
+            for async_ctor in [false, true] {
+                let (s, r) = if async_ctor {
+                    let (s, r) = kanal::unbounded_async::<u64>();
+                    (s.to_sync(), r.to_sync())
+                } else {
+                    kanal::unbounded::<u64>()
+                };
+                fill_stats.0 += 1;
+                let mut bad: Option<String> = None;
+                for k in 0..n {
+                    if k & 0xfff == 0 {
+                        BEAT.fetch_add(1, std::sync::atomic::Ordering::Relaxed);
+                    }
+                    // keep the ring's head moving: every 5th step takes one value out again
+                    let r1 = if k % 2 == 0 { s.try_send(k as u64) } else { s.try_send_realtime(k as u64) };
+                    if !matches!(r1, Ok(true)) {
+                        bad = Some(format!("try_send #{} on an unbounded channel holding {} values: returned {:?}, reference Ok(true)", k, s.len(), r1));
+                        break;
+                    }
+                }
+                fill_stats.1 += n as u64;
+                if bad.is_none() && (s.len() != n || s.is_full() || s.is_bounded()) {
+                    bad = Some(format!("unbounded channel after {} sends: len() {}, is_full() {}, is_bounded() {}", n, s.len(), s.is_full(), s.is_bounded()));
+                }
+                if bad.is_none() {
+                    for k in 0..n / 2 {
+                        match r.try_recv() {
+                            Ok(Some(v)) if v == k as u64 => {}
+                            o => {
+                                bad = Some(format!("try_recv #{} from an unbounded channel: returned {:?}, reference Ok(Some({}))", k, o, k));
+                                break;
+                            }
+                        }
+                    }
+                }
+                if bad.is_none() {
+                    let mut v = Vec::new();
+                    match r.drain_into(&mut v) {
+                        Ok(c) if c == n - n / 2 && v.iter().enumerate().all(|(i, x)| *x == (n / 2 + i) as u64) => {}
+                        o => bad = Some(format!("drain_into of the remaining {} values: returned {:?} / out of order", n - n / 2, o)),
+                    }
+                }
+                if let Some(e) = bad {
+                    nviol += 1;
+                    report("plain", None, async_ctor, &[], &(format!("TrySend/fill on unbounded: {}", e), vec![]), &mut out);
+                    break;
+                }
             }
         }
         // the configured capacity is reported back, whatever it is (no buffer is allocated for a zero-sized payload)
